@@ -717,7 +717,7 @@ def gen_estimate_cases(ctx):
                             keep = 0.7 if small else (0.12 if heavy else 0.4)
                         if rng.random() >= keep:
                             continue
-                    elif heavy and rng.random() >= 0.2:
+                    elif heavy and rng.random() >= 0.15:
                         continue          # instruments / two qubits: a sample of the grid also in the thorough tier (seconds per run)
                     truth = rng.choice(["boundary", "interior", "generic"]) if data != "exact" else rng.choice(["boundary", "interior"])
                     fl = [True, True]
@@ -1062,7 +1062,7 @@ def sub_reuse(ctx):
                 [[[T, T], "eq_ineq", 0], [[T, T], "ineq_eq", 1]],
                 [[[T, T], "eq_ineq", 0], [[T, T], "eq_ineq", 1], [[T, T], "eq_ineq", 2]],
                 [[[T, F], "eq_ineq", 1], [[F, F], "eq_ineq", 0], [[T, T], "ineq_eq", 2]]]
-    settings = [("qst", "1qubit", None), ("povmt", "1qubit", 3)] + ([] if ctx.quick else [("qpt", "1qubit", None), ("qst", "1qutrit", None), ("qmpt", "1qubit", 3)])
+    settings = [("qst", "1qubit", None), ("povmt", "1qubit", 3)] + ([] if ctx.quick else [("qpt", "1qubit", None), ("qst", "1qutrit", None)])          # instruments: seconds per run (reuse_linear covers them)
     for kind, sysname, mo in settings:
         for para in (True, False):
             for algo in ("bt", "mom", "fista") if not ctx.quick else (rng.choice(["bt", "mom", "fista"]),):
